@@ -92,6 +92,26 @@ def gen_filters(rng, name):
     return {'ex_globs': some(GLOBS, 0.5), 'ex_regexs': some(REGEXS, 0.4), 'in_globs': some(GLOBS, 0.3), 'in_regexs': some(REGEXS, 0.2)}
 
 
+def gen_directed_filters(rng, name, files):
+    """one file that is hit by a pattern of one kind and a pattern of another kind: every include/exclude precedence pair"""
+    rels = [r for r, s_ in files.items() if s_ > 0 and r and not any(p.startswith('.') for p in r) and all(ord(ch) < 128 for ch in '/'.join(r))]
+    fl = {'ex_globs': [], 'ex_regexs': [], 'in_globs': [], 'in_regexs': []}
+    if not rels:
+        return gen_filters(rng, name)
+    rel = rng.choice(rels)
+    subject = name + '/' + '/'.join(rel)
+    glob_ = rng.choice(['*' + rel[-1], name.swapcase() + '/*', '*' + rel[-1][-2:].upper(), subject])
+    regex = (rng.random() < 0.5, lit(subject) if rng.random() < 0.5 else lit(rel[-1]))
+    if regex[0]:
+        regex = (True, lit(subject))
+    inc, exc = rng.choice([('in_globs', 'ex_regexs'), ('in_regexs', 'ex_globs'), ('in_globs', 'ex_globs'), ('in_regexs', 'ex_regexs')])
+    fl[inc].append(glob_ if 'globs' in inc else regex)
+    fl[exc].append(glob_ if 'globs' in exc else regex)
+    if rng.random() < 0.3:
+        fl['ex_globs'].append('*')      # everything else is excluded
+    return fl
+
+
 def materialise(loc, name, single, files):
     top = os.path.join(loc, name)
     if single:
@@ -258,7 +278,8 @@ def run(ck, model_ok):
             for loc in locs:
                 materialise(loc, name, single, files)
             for fi in range(2 if quick else 3):
-                filters = gen_filters(ck.rng, name) if fi else {'ex_globs': [], 'ex_regexs': [], 'in_globs': [], 'in_regexs': []}
+                filters = {'ex_globs': [], 'ex_regexs': [], 'in_globs': [], 'in_regexs': []} if fi == 0 else \
+                    gen_directed_filters(ck.rng, name, files) if (fi == 1 and ti % 2 == 0 and not single) else gen_filters(ck.rng, name)
                 want = spec(name, single, files, filters)
                 ck.count('spec:' + want[0])
                 for li, loc in enumerate(locs):
